@@ -830,6 +830,69 @@ CFGS = [
 ]
 
 
+def server_half_open(run, rng, n):
+    """the server loop's pools (UdpServerThread.run / TwistedServer gate): keyless datagrams aimed at a HALF-OPEN
+    connection (server holds the key, challenge response not yet processed) and at a promoted one must leave the
+    connection object, its key and its token alone, and the honest handshake must still complete.
+    Real UdpServerThread stepped by harness/srvsim.py, replayed on Server.v (unit srv_run)."""
+    from harness import srvsim as V
+    T = S.TICKS
+    for i in range(n):
+        policy = V.random_policy(rng, p_raise=0.0, echo=0.0, chatty=False)
+        w = V.World(run, rng, cfg=(5 * T, 2 * T, 1536, T), policy=policy, full=True)
+        sim = w.sim
+        addr = ("10.1.0.%d" % (i + 1), 5000 + i)
+        try:
+            rec = w.add_client(addr)
+            w.step(300)                       # client hello -> temp entry, server hello sent back
+            pools = lambda: (sim.ctxt.temp_connections.get(addr), sim.ctxt.connections.get(addr))
+            t0, c0 = pools()
+            run.evaluations += 1
+            if t0 is None or t0.session_key_bytes is None:
+                raise RuntimeError("harness: no keyed half-open connection after the client hello")
+            before = (id(t0), bytes(t0.session_key_bytes), int(t0.token))
+            hello = w.sent_hist[0][1]
+            kind = ["replayed-hello", "fresh-hello", "junk-types", "flipped-hello"][i % 4]
+            if kind == "replayed-hello":
+                forged = [hello]
+            elif kind == "fresh-hello":
+                other = V.HClient(sim, ("10.250.0.%d" % (i + 1), 6000), pinned=True)
+                other.connect()
+                forged = [d for d in other.tick()][:1] or [hello]
+            elif kind == "flipped-hello":
+                b = bytearray(hello); b[8] ^= 0x01; b[9] ^= 0x10        # another datagram sequence number, CRC redone
+                body = bytes(b[:-4])
+                forged = [body + struct.pack(">L", binascii.crc32(body) & 0xFFFFFFFF)]
+            else:
+                forged = []
+                for ty in (1, 2, 4, 5, 6, 7):
+                    h = S.unpack_header(hello); h[4] = ty; h[2] = rng.randrange(2, 60000); h[5] = 3; h[6] = 1
+                    body = S.pack_header(h) + b"\x00\x01x"
+                    forged.append(body + struct.pack(">L", binascii.crc32(body) & 0xFFFFFFFF))
+            extra = [(addr, d) for d in forged]
+            first = rng.random() < 0.7
+            w.step(300, extra=extra, transform=(lambda b: [x for x in b if x in extra] + [x for x in b if x not in extra]) if first else None)
+            for _ in range(4):
+                w.step(300, extra=extra if rng.random() < 0.5 else ())
+            t1, c1 = pools()
+            cur = c1 if c1 is not None else t1
+            case = {"scenario": "server-half-open", "kind": kind, "forged_first": first, "addr": list(addr),
+                    "forged": [d[:60] for d in forged][:3]}
+            if cur is None or (id(cur), bytes(cur.session_key_bytes or b""), int(cur.token)) != before:
+                case["before"] = [before[1][:4], before[2]]
+                case["after"] = None if cur is None else [bytes(cur.session_key_bytes or b"")[:4], int(cur.token)]
+                run.oracle_violation("keyless-datagram-replaced-a-keyed-half-open-connection", case, "server.py pools / context.py")
+            elif c1 is None or rec["hc"].status() != 2:
+                case["client_status"] = rec["hc"].status()
+                run.oracle_violation("handshake-blocked-by-keyless-datagrams", case, "server.py pools")
+            diffs = sim.check_model(observe_errors=True)
+            run.compare("srv_run", [case], ["agree"], ["agree" if not diffs else "differ"])
+            run.count("server_half_open_worlds")
+            run.nt(("half-open", kind))
+        finally:
+            w.close()
+
+
 def run(run):
     logging.disable(logging.CRITICAL)
     inj = Injector(run)
@@ -848,6 +911,7 @@ def run(run):
     if done == 0:
         raise RuntimeError("no handshake session completed: the harness is not exercising connected endpoints")
     corr_bytes(run, inj)
+    server_half_open(run, run.rng, 8 if thorough else 4)
     run.count("injected_total", inj.n)
     run.sample({"oracle": "deep snapshot equality around each injected datagram; twin session comparison",
                 "injected": inj.n, "refused_by_header_gate": inj.gate})
